@@ -839,7 +839,7 @@ class AQUA:
         num_samples = len(self.acc)
         Q = np.zeros((num_samples, 4))
         if self.mag is None:
-            Q[0] = self.estimate(self.acc[0]) if self.q0 is None else self.q0.copy()
+            Q[0] = self.estimate(self.acc[0]) if self.q0 is None else np.array(self.q0, dtype=float)/np.linalg.norm(self.q0)
             if self.gyr is not None:
                 _assert_numerical_iterable(self.gyr, 'Gyroscope data')
                 _assert_same_shapes(self.acc, self.gyr, ['acc', 'gyr'])
@@ -849,7 +849,7 @@ class AQUA:
             for t in range(1, num_samples):
                 Q[t] = self.estimate(self.acc[t])
             return Q
-        Q[0] = self.estimate(self.acc[0], self.mag[0]) if self.q0 is None else self.q0.copy()
+        Q[0] = self.estimate(self.acc[0], self.mag[0]) if self.q0 is None else np.array(self.q0, dtype=float)/np.linalg.norm(self.q0)
         _assert_same_shapes(self.acc, self.mag, ['acc', 'mag'])
         if self.gyr is not None:
             _assert_numerical_iterable(self.mag, 'Magnetometer data')
